@@ -171,7 +171,22 @@ func Param(name string) VM {
 	return func(v ssa.Value) bool {
 		p, ok := Strip(v).(*ssa.Parameter)
 		if !ok {
-			return false
+			// parameters bundled into a struct: the field of that name of a parameter stands for the former parameter,
+			// when the function has no parameter of that name any more
+			f, base := FieldRead(v)
+			if f == nil || f.Name() != name || base == nil {
+				return false
+			}
+			bp, isP := Strip(base).(*ssa.Parameter)
+			if !isP || bp.Parent() == nil {
+				return false
+			}
+			for _, q := range bp.Parent().Params {
+				if paramRefName(q) == name {
+					return false
+				}
+			}
+			return true
 		}
 		return paramRefName(p) == name
 	}
@@ -209,12 +224,27 @@ func paramRefName(p *ssa.Parameter) string {
 		return p.Name()
 	}
 	names, ok := refParams[ir.FuncKey(fn)]
-	if !ok || len(names) != len(fn.Params) {
+	if !ok {
 		return p.Name()
 	}
-	for i, q := range fn.Params {
-		if q == p {
-			return names[i]
+	// a parameter that still has a reference name is that parameter (parameters were reordered, a receiver came or went);
+	// one with a new name, standing where a reference name that no longer exists stood, was renamed
+	isRef := map[string]bool{}
+	for _, n := range names {
+		isRef[n] = true
+	}
+	if isRef[p.Name()] {
+		return p.Name()
+	}
+	cur := map[string]bool{}
+	for _, q := range fn.Params {
+		cur[q.Name()] = true
+	}
+	if len(names) == len(fn.Params) {
+		for i, q := range fn.Params {
+			if q == p && !cur[names[i]] {
+				return names[i]
+			}
 		}
 	}
 	return p.Name()
@@ -286,6 +316,9 @@ func LoadNamed(name string, base VM) VM {
 func FuncRef(f *types.Func) string {
 	if f == nil {
 		return ""
+	}
+	if r := ir.RehomedRef(f); r != "" {
+		return r
 	}
 	pkg := ""
 	if f.Pkg() != nil {
@@ -774,4 +807,20 @@ func resolveTempPhi(phi *ssa.Phi) ssa.Value {
 	}()
 	tempPhiMemo[phi] = res
 	return res
+}
+
+// ArgOf returns the argument a static call passes for the callee parameter that was called name on the reference tree
+// (receiver included), or nil: rules name arguments by parameter, so re-ordering the parameters of a helper, or turning a
+// method into a function, does not disturb them.
+func ArgOf(cc *ssa.CallCommon, name string) ssa.Value {
+	callee := cc.StaticCallee()
+	if callee == nil || len(callee.Params) != len(cc.Args) {
+		return nil
+	}
+	for i, p := range callee.Params {
+		if paramRefName(p) == name {
+			return cc.Args[i]
+		}
+	}
+	return nil
 }
